@@ -349,7 +349,8 @@ Fixpoint overlap_free (max : nat) (s : nat * list qpc) (sched : list nat) : bool
       SkipRecord  a failing by-id read is logged and skipped (NOT the code; the variant is refuted)
       Open        a failing index read yields an empty listing and a failing by-id read is skipped
                   (repos/mapping_repository.go GetClientPortMappings via generic List/Get, as used by
-                  ActivateConnectionCode step 5 — the code as found) *)
+                  ActivateConnectionCode step 5 — a documented choice of the code; storage faults are
+                  outside C17's quantifier, so Open is recorded as behaviour, not as a defect) *)
 Inductive fpolicy := Abort | SkipRecord | Open.
 Inductive ares := ACreated | ARefused | AFailed.
 
